@@ -1,10 +1,14 @@
-(* C01  Bash target preserves scalar expression and control-flow semantics.
-   Proved for ALL programs: (1) expressions - the emitted lines compute the source value in the shell
-   (any nesting depth, any operator mix, all int64 values, strings as data); (2) integer literals keep their
-   value through printing and re-reading; (3) the reference arithmetic is Go's int64 arithmetic;
-   (4) straight-line programs of assignments and prints (C01_straight_line_preserved); (5) programs with conditionals at any nesting depth (C01_conditionals_preserved); (6) terminating programs with loops, break
-   and continue (C01_loops_preserved); (7) the statement structure of the script (C16/C04 theorems).  Slices, multi-value calls and panic are NOT covered by a theorem; they are decided on
-   generated programs by running the implementation's script under /bin/bash against Sem/Src.v. *)
+(* C01  Bash target preserves scalar expression and control-flow semantics.  PARTIAL.
+   Proved: (1) expressions - for every call-free scalar expression the emitted lines compute the source value in the shell
+   (any nesting depth, any operator mix, all int64 values, strings as data); (2) integer literals keep their value through
+   printing and re-reading; (3) the reference arithmetic is Go's int64 arithmetic; (4) straight-line programs
+   (C01_straight_line_preserved); (5) conditionals at any nesting depth (C01_conditionals_preserved); (6) terminating
+   programs with loops, break, continue, simultaneous assignments and call statements (C01_loops_preserved); (7) the source
+   semantics of these theorems is executable (C01_source_semantics_executable); (8) whole programs end to end
+   (C01_program_preserved): interpreter answer + decidable name check => the emitted script prints it; (9) the statement
+   structure of the script (C16/C04 theorems).  NOT covered by a theorem: slices, strings as sequences (len, subscripts),
+   calls as operands or arguments, panic, non-terminating runs; these are decided on generated programs by running the
+   implementation's script under /bin/bash against Sem/Src.v. *)
 From Verif Require Import Base.Bytestr Base.DecFacts Front.Ast Front.FrontModel Back.BashLines Back.Transpile Back.BashConv
   Back.BashFacts Sem.Src Sem.SrcFacts Sem.BashSem Sem.ExprPreserve Sem.Words Sem.StmtPreserve Sem.FlatSem Sem.IfPreserve Sem.FlatLoop Sem.LoopPreserve.
 From Coq Require Import ZArith.
